@@ -462,7 +462,7 @@ func run(c *Case) (*outcome, *vkit.Violation, error) {
 		cn := call.Cred.CN
 		if op == "dkg" {
 			// the receiver answers without error only to peers
-			isPeer := cn == vkit.NodeName(0) || cn == vkit.NodeName(1)
+			isPeer := cn == vkit.NodeName(0) || cn == vkit.NodeName(1) // exact names only
 			if !isPeer {
 				return o, vkit.Violf("dkg-message-accepted-from-non-peer-cn", "%s: answered without error although the certificate's subject %q is not a peer", where, cn), nil
 			}
@@ -493,7 +493,7 @@ func genCred(t *rapid.T) Cred {
 		Issuer:    rapid.SampledFrom([]string{"ca", "ca", "other-ca", "self-signed"}).Draw(t, "issuer"),
 		Validity:  rapid.SampledFrom([]string{"valid", "valid", "valid", "expired", "not-yet-valid"}).Draw(t, "validity"),
 		EKU:       rapid.SampledFrom([]string{"client", "client", "client", "server-only", "none"}).Draw(t, "eku"),
-		CN:        rapid.SampledFrom([]string{"alice", "alice", "bob", "carol", vkit.NodeName(1), "mallory", ""}).Draw(t, "cn"),
+		CN:        rapid.SampledFrom([]string{"alice", "alice", "alice", "bob", "carol", vkit.NodeName(1), "mallory", "", "Alice", "alice ", "ALICE", strings.ToUpper(vkit.NodeName(1)), vkit.NodeName(1) + "0"}).Draw(t, "cn"),
 		SAN:       rapid.SampledFrom([]string{"", "", "alice", "bob", vkit.NodeName(1), "mallory"}).Draw(t, "san"),
 	}
 	if c.Transport == "tls-cert" && rapid.IntRange(0, 3).Draw(t, "extra") == 0 {
